@@ -198,6 +198,167 @@ KERNELS = [
     ('FaultCondVar_wait_for', None, ['yaclib_std/condition_variable'], 'yaclib::detail::ConditionVariable', 'fault/detail/condition_variable.hpp', 'wait_for', 'template'),
     ('FaultCondVar_notify_one', None, ['yaclib_std/condition_variable'], 'yaclib::detail::ConditionVariable', 'fault/detail/condition_variable.hpp', 'notify_one', 0),
     ('FaultCondVar_notify_all', None, ['yaclib_std/condition_variable'], 'yaclib::detail::ConditionVariable', 'fault/detail/condition_variable.hpp', 'notify_all', 0),
+    # ---- fiber scheduler / fault injector decision code (C17); the pure parts are also translated by x_fibersched.py
+    ('Sched_RunLoop', 'src/fault/fiber/scheduler.cpp', None, 'yaclib::fault::Scheduler', 'fiber/scheduler.cpp', 'RunLoop', 0),
+    ('Sched_Schedule', 'src/fault/fiber/scheduler.cpp', None, 'yaclib::fault::Scheduler', 'fiber/scheduler.cpp', 'Schedule', 0),
+    ('Sched_GetNext', 'src/fault/fiber/scheduler.cpp', None, 'yaclib::fault::Scheduler', 'fiber/scheduler.cpp', 'GetNext', 0),
+    ('Sched_RescheduleCurrent', 'src/fault/fiber/scheduler.cpp', None, 'yaclib::fault::Scheduler', 'fiber/scheduler.cpp', 'RescheduleCurrent', 0),
+    ('Sched_Suspend', 'src/fault/fiber/scheduler.cpp', None, 'yaclib::fault::Scheduler', 'fiber/scheduler.cpp', 'Suspend', 0),
+    ('Sched_Sleep', 'src/fault/fiber/scheduler.cpp', None, 'yaclib::fault::Scheduler', 'fiber/scheduler.cpp', 'Sleep', 0),
+    ('Sched_SleepPreemptive', 'src/fault/fiber/scheduler.cpp', None, 'yaclib::fault::Scheduler', 'fiber/scheduler.cpp', 'SleepPreemptive', 0),
+    ('Sched_WakeUpNeeded', 'src/fault/fiber/scheduler.cpp', None, 'yaclib::fault::Scheduler', 'fiber/scheduler.cpp', 'WakeUpNeeded', 0),
+    ('Sched_AdvanceTime', 'src/fault/fiber/scheduler.cpp', None, 'yaclib::fault::Scheduler', 'fiber/scheduler.cpp', 'AdvanceTime', 0),
+    ('Sched_TickTime', 'src/fault/fiber/scheduler.cpp', None, 'yaclib::fault::Scheduler', 'fiber/scheduler.cpp', 'TickTime', 0),
+    ('Sched_GetTimeNs', 'src/fault/fiber/scheduler.cpp', None, 'yaclib::fault::Scheduler', 'fiber/scheduler.cpp', 'GetTimeNs', 0),
+    ('Sched_PollRandomElementFromList', 'src/fault/fiber/scheduler.cpp', None, 'yaclib::detail::fiber::PollRandomElementFromList', 'fiber/scheduler.cpp', 'PollRandomElementFromList', 0),
+    ('Sched_BiList_PushBack', 'src/fault/fiber/bidirectional_intrusive_list.cpp', None, 'yaclib::detail::fiber::BiList', 'bidirectional_intrusive_list.cpp', 'PushBack', 0),
+    ('Sched_BiList_PushAll', 'src/fault/fiber/bidirectional_intrusive_list.cpp', None, 'yaclib::detail::fiber::BiList', 'bidirectional_intrusive_list.cpp', 'PushAll', 0),
+    ('Sched_BiList_PopBack', 'src/fault/fiber/bidirectional_intrusive_list.cpp', None, 'yaclib::detail::fiber::BiList', 'bidirectional_intrusive_list.cpp', 'PopBack', 0),
+    ('Sched_BiList_Empty', 'src/fault/fiber/bidirectional_intrusive_list.cpp', None, 'yaclib::detail::fiber::BiList', 'bidirectional_intrusive_list.cpp', 'Empty', 0),
+    ('Sched_BiList_GetElement', 'src/fault/fiber/bidirectional_intrusive_list.cpp', None, 'yaclib::detail::fiber::BiList', 'bidirectional_intrusive_list.cpp', 'GetElement', 0),
+    ('Sched_BiList_MoveAssign', 'src/fault/fiber/bidirectional_intrusive_list.cpp', None, 'yaclib::detail::fiber::BiList', 'bidirectional_intrusive_list.cpp', 'operator=', 0),
+    ('Sched_Node_Erase', 'src/fault/fiber/bidirectional_intrusive_list.cpp', None, 'yaclib::detail::fiber::Node', 'bidirectional_intrusive_list.cpp', 'Erase', 0),
+    ('Sched_Queue_Wait', 'src/fault/fiber/queue.cpp', None, 'yaclib::detail::fiber::FiberQueue', 'fiber/queue.cpp', 'Wait', 0),
+    ('Sched_Queue_WaitTimed', None, ['yaclib/fault/detail/fiber/queue.hpp'], 'yaclib::detail::fiber::FiberQueue', 'fiber/queue.hpp', 'Wait', 'template'),
+    ('Sched_Queue_NotifyOne', 'src/fault/fiber/queue.cpp', None, 'yaclib::detail::fiber::FiberQueue', 'fiber/queue.cpp', 'NotifyOne', 0),
+    ('Sched_Queue_NotifyAll', 'src/fault/fiber/queue.cpp', None, 'yaclib::detail::fiber::FiberQueue', 'fiber/queue.cpp', 'NotifyAll', 0),
+    ('Sched_Queue_ScheduleAndRemove', 'src/fault/fiber/queue.cpp', None, 'yaclib::detail::fiber::FiberQueue', 'fiber/queue.cpp', 'ScheduleAndRemove', 0),
+    ('Sched_Thread_join', 'src/fault/fiber/thread.cpp', None, 'yaclib::detail::fiber::Thread', 'fiber/thread.cpp', 'join', 0),
+    ('Sched_FiberBase_Exit', 'src/fault/fiber/fiber_base.cpp', None, 'yaclib::detail::fiber::FiberBase', 'fiber/fiber_base.cpp', 'Exit', 0),
+    ('Sched_ScheduleFiber', 'src/fault/fiber/wakeup_helper.cpp', None, 'yaclib::detail::fiber::ScheduleFiber', 'fiber/wakeup_helper.cpp', 'ScheduleFiber', 0),
+    ('Sched_SystemClock_now', 'src/fault/fiber/system_clock.cpp', None, 'yaclib::detail::fiber::SystemClock', 'fiber/system_clock.cpp', 'now', 0),
+    ('Sched_this_thread_sleep', None, ['yaclib_std/thread'], 'yaclib_std::this_thread::sleep_', 'yaclib_std/detail/this_thread.hpp', 'sleep_until', 'template'),
+    ('Sched_this_thread_sleep_for', None, ['yaclib_std/thread'], 'yaclib_std::this_thread::sleep_', 'yaclib_std/detail/this_thread.hpp', 'sleep_for', 'template'),
+    ('Fault_InjectFault', 'src/fault/inject.cpp', None, 'yaclib::InjectFault', 'fault/inject.cpp', 'InjectFault', 0),
+    ('Fault_MaybeInject', 'src/fault/injector.cpp', None, 'yaclib::detail::Injector', 'fault/injector.cpp', 'MaybeInject', 0),
+    ('Fault_NeedInject', 'src/fault/injector.cpp', None, 'yaclib::detail::Injector', 'fault/injector.cpp', 'NeedInject', 0),
+    ('Fault_Reset', 'src/fault/injector.cpp', None, 'yaclib::detail::Injector', 'fault/injector.cpp', 'Reset', 0),
+    ('Fault_GetState', 'src/fault/injector.cpp', None, 'yaclib::detail::Injector', 'fault/injector.cpp', 'GetState', 0),
+    ('Fault_SetState', 'src/fault/injector.cpp', None, 'yaclib::detail::Injector', 'fault/injector.cpp', 'SetState', 0),
+    ('Fault_SetSeed', 'src/fault/util.cpp', None, 'yaclib::detail::', 'fault/util.cpp', 'SetSeed', 0),
+    ('Fault_GetRandNumber', 'src/fault/util.cpp', None, 'yaclib::detail::', 'fault/util.cpp', 'GetRandNumber', 0),
+    ('Fault_GetRandCount', 'src/fault/util.cpp', None, 'yaclib::detail::', 'fault/util.cpp', 'GetRandCount', 0),
+    ('Fault_ForwardToRandCount', 'src/fault/util.cpp', None, 'yaclib::detail::', 'fault/util.cpp', 'ForwardToRandCount', 0),
+    ('Fault_ShouldFailAtomicWeak', 'src/fault/atomic.cpp', None, 'yaclib::detail::ShouldFailAtomicWeak', 'fault/atomic.cpp', 'ShouldFailAtomicWeak', 0),
+    ('Fault_cfg_ForwardToFaultRandomCount', 'src/fault/config.cpp', None, 'yaclib::fiber::', 'fault/config.cpp', 'ForwardToFaultRandomCount', 0),
+    ('Fault_cfg_GetFaultRandomCount', 'src/fault/config.cpp', None, 'yaclib::fiber::', 'fault/config.cpp', 'GetFaultRandomCount', 0),
+    ('Fault_cfg_SetInjectorState', 'src/fault/config.cpp', None, 'yaclib::fiber::', 'fault/config.cpp', 'SetInjectorState', 0),
+    ('Fault_cfg_GetInjectorState', 'src/fault/config.cpp', None, 'yaclib::fiber::', 'fault/config.cpp', 'GetInjectorState', 0),
+    ('Fault_cfg_SetSeed', 'src/fault/config.cpp', None, 'yaclib::SetSeed', 'fault/config.cpp', 'SetSeed', 0),
+    # ---- program-level pipeline (C02 / C03 / C05 / C12 / C20): Core routing, lazy start, executors, the one allocation
+    ('Core_Call', None, ['yaclib/algo/detail/core.hpp'], 'yaclib::detail::Core', 'detail/core.hpp', 'Call', 0),
+    ('Core_Drop', None, ['yaclib/algo/detail/core.hpp'], 'yaclib::detail::Core', 'detail/core.hpp', 'Drop', 0),
+    ('Core_Impl', None, ['yaclib/algo/detail/core.hpp'], 'yaclib::detail::Core', 'detail/core.hpp', 'Impl', 'template'),
+    ('Core_Here', None, ['yaclib/algo/detail/core.hpp'], 'yaclib::detail::Core', 'detail/core.hpp', 'Here', 0),
+    ('Core_CallImpl', None, ['yaclib/algo/detail/core.hpp'], 'yaclib::detail::Core', 'detail/core.hpp', 'CallImpl', 'template'),
+    ('Core_Done', None, ['yaclib/algo/detail/core.hpp'], 'yaclib::detail::Core', 'detail/core.hpp', 'Done', 'template'),
+    ('Core_CallResolveState', None, ['yaclib/algo/detail/core.hpp'], 'yaclib::detail::Core', 'detail/core.hpp', 'CallResolveState', 'template'),
+    ('Core_CallResolveAsync', None, ['yaclib/algo/detail/core.hpp'], 'yaclib::detail::Core', 'detail/core.hpp', 'CallResolveAsync', 'template'),
+    ('Core_CallResolveVoid', None, ['yaclib/algo/detail/core.hpp'], 'yaclib::detail::Core', 'detail/core.hpp', 'CallResolveVoid', 'template'),
+    ('Core_ctor', None, ['yaclib/algo/detail/core.hpp'], 'yaclib::detail::Core', 'detail/core.hpp', 'Core<Ret, Arg, E, Func, Type, kAsync>', 0),
+    ('Core_Tag', None, ['yaclib/algo/detail/core.hpp'], 'yaclib::detail::Tag', 'detail/core.hpp', 'Tag', 'template'),
+    ('MakeCore', None, ['yaclib/algo/detail/core.hpp'], 'yaclib::detail::MakeCore', 'detail/core.hpp', 'MakeCore', 'template'),
+    ('MoveToCaller', None, ['yaclib/algo/detail/core.hpp'], 'yaclib::detail::MoveToCaller', 'detail/core.hpp', 'MoveToCaller', 0),
+    ('InlineCore_Loop', None, ['yaclib/algo/detail/inline_core.hpp'], 'yaclib::detail::Loop', 'inline_core.hpp', 'Loop', 0),
+    ('InlineCore_Step', None, ['yaclib/algo/detail/inline_core.hpp'], 'yaclib::detail::Step', 'inline_core.hpp', 'Step', 'template'),
+    ('InlineCore_Noop', None, ['yaclib/algo/detail/inline_core.hpp'], 'yaclib::detail::Noop', 'inline_core.hpp', 'Noop', 'template'),
+    ('BaseCore_TransferExecutorTo', None, ['yaclib/algo/detail/base_core.hpp'], 'yaclib::detail::BaseCore', 'base_core.hpp', 'TransferExecutorTo', 'template'),
+    ('ResultCore_Impl', None, ['yaclib/algo/detail/result_core.hpp'], 'yaclib::detail::ResultCore', 'result_core.hpp', 'Impl', 'template'),
+    ('UniqueCore_Here', None, ['yaclib/algo/detail/unique_core.hpp'], 'yaclib::detail::UniqueCore', 'unique_core.hpp', 'Here', 0),
+    ('FuncCore_ctor', None, ['yaclib/algo/detail/func_core.hpp'], 'yaclib::detail::FuncCore', 'func_core.hpp', 'FuncCore<Func>', 0),
+    ('PromiseCore_Call', None, ['yaclib/algo/detail/promise_core.hpp'], 'yaclib::detail::PromiseCore', 'promise_core.hpp', 'Call', 0),
+    ('PromiseCore_Drop', None, ['yaclib/algo/detail/promise_core.hpp'], 'yaclib::detail::PromiseCore', 'promise_core.hpp', 'Drop', 0),
+    ('ReadyCore_ctor', None, ['yaclib/lazy/make.hpp'], 'yaclib::detail::ReadyCore', 'lazy/make.hpp', 'ReadyCore<V, E>', 'template'),
+    ('ReadyCore_Call', None, ['yaclib/lazy/make.hpp'], 'yaclib::detail::ReadyCore', 'lazy/make.hpp', 'Call', 0),
+    ('ReadyCore_Drop', None, ['yaclib/lazy/make.hpp'], 'yaclib::detail::ReadyCore', 'lazy/make.hpp', 'Drop', 0),
+    ('ReadyCore_Here', None, ['yaclib/lazy/make.hpp'], 'yaclib::detail::ReadyCore', 'lazy/make.hpp', 'Here', 0),
+    ('MakeTask', None, ['yaclib/lazy/make.hpp'], 'yaclib::MakeTask', 'lazy/make.hpp', 'MakeTask', 'template'),
+    ('MakeFuture', None, ['yaclib/async/make.hpp'], 'yaclib::MakeFuture', 'async/make.hpp', 'MakeFuture', 'template'),
+    ('MakeContract', None, ['yaclib/async/contract.hpp'], 'yaclib::MakeContract', 'async/contract.hpp', 'MakeContract', 'template'),
+    ('MakeContractOn', None, ['yaclib/async/contract.hpp'], 'yaclib::MakeContract', 'async/contract.hpp', 'MakeContractOn', 'template'),
+    ('detail_Run', None, ['yaclib/async/run.hpp'], 'yaclib::detail::Run', 'async/run.hpp', 'Run', 'template'),
+    ('detail_Schedule', None, ['yaclib/lazy/schedule.hpp'], 'yaclib::detail::Schedule', 'lazy/schedule.hpp', 'Schedule', 'template'),
+    ('Task_Start', 'src/lazy/task_impl.cpp', None, 'yaclib::detail::Start', 'task_impl.cpp', 'Start', 'template'),
+    ('Task_dtor', None, ['yaclib/lazy/task.hpp'], 'yaclib::Task', 'lazy/task.hpp', '~Task<V, E>', 0),
+    ('Task_ThenOn', None, ['yaclib/lazy/task.hpp'], 'yaclib::Task', 'lazy/task.hpp', 'Then', 0),
+    ('Task_ThenInherit', None, ['yaclib/lazy/task.hpp'], 'yaclib::Task', 'lazy/task.hpp', 'Then', 1),
+    ('Task_ThenInline', None, ['yaclib/lazy/task.hpp'], 'yaclib::Task', 'lazy/task.hpp', 'ThenInline', 0),
+    ('Task_Cancel', None, ['yaclib/lazy/task.hpp'], 'yaclib::Task', 'lazy/task.hpp', 'Cancel', 0),
+    ('Task_Detach', None, ['yaclib/lazy/task.hpp'], 'yaclib::Task', 'lazy/task.hpp', 'Detach', 0),
+    ('Task_DetachOn', None, ['yaclib/lazy/task.hpp'], 'yaclib::Task', 'lazy/task.hpp', 'Detach', 1),
+    ('Task_ToFuture', None, ['yaclib/lazy/task.hpp'], 'yaclib::Task', 'lazy/task.hpp', 'ToFuture', 0),
+    ('Task_ToFutureOn', None, ['yaclib/lazy/task.hpp'], 'yaclib::Task', 'lazy/task.hpp', 'ToFuture', 1),
+    ('FutureBase_ThenOn', None, ['yaclib/async/future.hpp'], 'yaclib::Future', 'async/future.hpp', 'Then', 0),
+    ('FutureOn_ThenInherit', None, ['yaclib/async/future.hpp'], 'yaclib::Future', 'async/future.hpp', 'Then', 1),
+    ('Future_ThenInline', None, ['yaclib/async/future.hpp'], 'yaclib::Future', 'async/future.hpp', 'ThenInline', 0),
+    ('FutureBase_DetachInline', None, ['yaclib/async/future.hpp'], 'yaclib::Future', 'async/future.hpp', 'DetachInline', 0),
+    ('FutureBase_DetachOn', None, ['yaclib/async/future.hpp'], 'yaclib::Future', 'async/future.hpp', 'Detach', 1),
+    ('FutureOn_DetachInherit', None, ['yaclib/async/future.hpp'], 'yaclib::Future', 'async/future.hpp', 'Detach', 2),
+    ('Inline_Submit', 'src/exe/inline.cpp', None, 'Inline', 'exe/inline.cpp', 'Submit', 0),
+    ('Inline_Alive', 'src/exe/inline.cpp', None, 'Inline', 'exe/inline.cpp', 'Alive', 0),
+    ('Manual_Submit', 'src/exe/manual.cpp', None, 'yaclib::ManualExecutor', 'exe/manual.cpp', 'Submit', 0),
+    ('Manual_Drain', 'src/exe/manual.cpp', None, 'yaclib::ManualExecutor', 'exe/manual.cpp', 'Drain', 0),
+    ('MakeUnique', None, ['yaclib/util/helper.hpp'], 'yaclib::MakeUnique', 'util/helper.hpp', 'MakeUnique', 'template'),
+    ('MakeShared', None, ['yaclib/util/helper.hpp'], 'yaclib::MakeShared', 'util/helper.hpp', 'MakeShared', 'template'),
+    ('OneCounter_Sub', None, ['yaclib/util/detail/unique_counter.hpp'], 'yaclib::detail::OneCounter', 'unique_counter.hpp', 'Sub', 0),
+    # ---- shared core: callback list + reference counter (C06)
+    ('SharedCore_Retire', None, ['yaclib/algo/detail/shared_core.hpp'], 'yaclib::detail::SharedCore', 'shared_core.hpp', 'Retire', 0),
+    ('SharedCore_Here', None, ['yaclib/algo/detail/shared_core.hpp'], 'yaclib::detail::SharedCore', 'shared_core.hpp', 'Here', 0),
+    ('SharedCore_SetCallback', None, ['yaclib/algo/detail/shared_core.hpp'], 'yaclib::detail::SharedCore', 'shared_core.hpp', 'SetCallback', 0),
+    ('SharedCore_SetInline', None, ['yaclib/algo/detail/shared_core.hpp'], 'yaclib::detail::SharedCore', 'shared_core.hpp', 'SetInline', 'template'),
+    ('SharedCore_SetResult', None, ['yaclib/algo/detail/shared_core.hpp'], 'yaclib::detail::SharedCore', 'shared_core.hpp', 'SetResult', 'template'),
+    ('SharedFutureBase_Ready', None, ['yaclib/async/shared_future.hpp'], 'yaclib::SharedFutureBase', 'async/shared_future.hpp', 'Ready', 0),
+    ('SharedFutureBase_GetMove', None, ['yaclib/async/shared_future.hpp'], 'yaclib::SharedFutureBase', 'async/shared_future.hpp', 'Get', 0),
+    ('SharedFutureBase_GetConst', None, ['yaclib/async/shared_future.hpp'], 'yaclib::SharedFutureBase', 'async/shared_future.hpp', 'Get', 1),
+    ('SharedFutureBase_TouchMove', None, ['yaclib/async/shared_future.hpp'], 'yaclib::SharedFutureBase', 'async/shared_future.hpp', 'Touch', 0),
+    ('SharedFutureBase_TouchConst', None, ['yaclib/async/shared_future.hpp'], 'yaclib::SharedFutureBase', 'async/shared_future.hpp', 'Touch', 1),
+    ('SharedFutureBase_ThenOn', None, ['yaclib/async/shared_future.hpp'], 'yaclib::SharedFutureBase', 'async/shared_future.hpp', 'Then', 'template'),
+    ('SharedFutureBase_SubscribeInline', None, ['yaclib/async/shared_future.hpp'], 'yaclib::SharedFutureBase', 'async/shared_future.hpp', 'SubscribeInline', 'template'),
+    ('SharedFutureBase_Subscribe', None, ['yaclib/async/shared_future.hpp'], 'yaclib::SharedFutureBase', 'async/shared_future.hpp', 'Subscribe', 'template'),
+    ('SharedFuture_ThenInline', None, ['yaclib/async/shared_future.hpp'], 'yaclib::SharedFuture', 'async/shared_future.hpp', 'ThenInline', 'template'),
+    ('SharedFutureBase_GetHandle', None, ['yaclib/async/shared_future.hpp'], 'yaclib::SharedFutureBase', 'async/shared_future.hpp', 'GetHandle', 0),
+    ('SharedPromise_Set', None, ['yaclib/async/shared_promise.hpp'], 'yaclib::SharedPromise', 'async/shared_promise.hpp', 'Set', 'template'),
+    ('SharedPromise_dtor', None, ['yaclib/async/shared_promise.hpp'], 'yaclib::SharedPromise', 'async/shared_promise.hpp', '~SharedPromise<V, E>', 0),
+    ('MakeSharedContract', None, ['yaclib/async/shared_contract.hpp'], 'yaclib::MakeSharedContract', 'async/shared_contract.hpp', 'MakeSharedContract', 'template'),
+    ('SharedHandle_SetCallback', None, ['yaclib/algo/detail/base_core.hpp'], 'yaclib::detail::SharedHandle', 'base_core.hpp', 'SetCallback', 0),
+    ('AtomicCounter_Add', None, ['yaclib/util/detail/atomic_counter.hpp'], 'yaclib::detail::AtomicCounter', 'atomic_counter.hpp', 'Add', 0),
+    ('AtomicCounter_Sub', None, ['yaclib/util/detail/atomic_counter.hpp'], 'yaclib::detail::AtomicCounter', 'atomic_counter.hpp', 'Sub', 0),
+    ('AtomicCounter_Get', None, ['yaclib/util/detail/atomic_counter.hpp'], 'yaclib::detail::AtomicCounter', 'atomic_counter.hpp', 'Get', 0),
+    ('AtomicCounter_SubEqual', None, ['yaclib/util/detail/atomic_counter.hpp'], 'yaclib::detail::AtomicCounter', 'atomic_counter.hpp', 'SubEqual', 0),
+    ('Helper_IncRef', None, ['yaclib/util/helper.hpp'], 'yaclib::detail::Helper', 'util/helper.hpp', 'IncRef', 0),
+    ('Helper_DecRef', None, ['yaclib/util/helper.hpp'], 'yaclib::detail::Helper', 'util/helper.hpp', 'DecRef', 0),
+    ('Helper_GetRef', None, ['yaclib/util/helper.hpp'], 'yaclib::detail::Helper', 'util/helper.hpp', 'GetRef', 0),
+    ('IntrusivePtr_copy_from_raw', None, ['yaclib/util/intrusive_ptr.hpp'], 'yaclib::IntrusivePtr', 'intrusive_ptr_impl.hpp', 'IntrusivePtr<T>', 1),
+    ('IntrusivePtr_dtor', None, ['yaclib/util/intrusive_ptr.hpp'], 'yaclib::IntrusivePtr', 'intrusive_ptr_impl.hpp', '~IntrusivePtr<T>', 0),
+    ('When_ConsumeImpl', None, ['yaclib/async/when/when.hpp'], 'yaclib::when::ConsumeImpl', 'when/when.hpp', 'ConsumeImpl', 'template'),
+    ('When_CombinatorCallback_Impl', None, ['yaclib/async/when/when.hpp'], 'yaclib::when::CombinatorCallback', 'when/when.hpp', 'Impl', 0),
+    ('AwaitAwaiterBase_await_ready', None, ['yaclib/coro/detail/await_awaiter.hpp'], 'yaclib::detail::AwaitAwaiterBase', 'await_awaiter.hpp', 'await_ready', 0),
+    # ---- combinators (C09 WhenAll / Join, C10 WhenAny): registration loop, combinator callback, strategies
+    ('When_Consume', None, ['yaclib/async/when_all.hpp'], 'yaclib::when::Consume', 'when/when.hpp', 'Consume', 'template'),
+    ('When_When', None, ['yaclib/async/when_all.hpp'], 'yaclib::when::When', 'when/when.hpp', 'When', 'template'),
+    ('When_SingleCombinator_Set', None, ['yaclib/async/when_all.hpp'], 'yaclib::when::SingleCombinator', 'when/when.hpp', 'Set', 'template'),
+    ('When_SingleCombinator_SetCore', None, ['yaclib/async/when_all.hpp'], 'yaclib::when::SingleCombinator', 'when/when.hpp', 'SetCore', 0),
+    ('When_SingleCombinator_Impl', None, ['yaclib/async/when_all.hpp'], 'yaclib::when::SingleCombinator', 'when/when.hpp', 'Impl', 0),
+    ('When_StaticCombinator_SetCore', None, ['yaclib/async/when_all.hpp'], 'yaclib::when::StaticCombinator', 'when/when.hpp', 'SetCore', 0),
+    ('When_StaticCombinator_SetImpl', None, ['yaclib/async/when_all.hpp'], 'yaclib::when::StaticCombinator', 'when/when.hpp', 'SetImpl', 0),
+    ('When_StaticCombinator_Set', None, ['yaclib/async/when_all.hpp'], 'yaclib::when::StaticCombinator', 'when/when.hpp', 'Set', 0),
+    ('When_DynamicCombinator_Set', None, ['yaclib/async/when_all.hpp'], 'yaclib::when::DynamicCombinator', 'when/when.hpp', 'Set', 0),
+    ('WhenAll_Register', None, ['yaclib/async/when_all.hpp'], 'yaclib::when::All', 'when/all.hpp', 'Register', 'template'),
+    ('WhenAll_Consume', None, ['yaclib/async/when_all.hpp'], 'yaclib::when::All', 'when/all.hpp', 'Consume', 'template'),
+    ('WhenAll_dtor_None', None, ['yaclib/async/when_all.hpp'], 'yaclib::when::All', 'when/all.hpp', '~All<yaclib::FailPolicy::None, type-parameter-0-0, type-parameter-0-1, type-parameter-0-2>', 0),
+    ('WhenAll_dtor_FirstFail', None, ['yaclib/async/when_all.hpp'], 'yaclib::when::All', 'when/all.hpp', '~All<yaclib::FailPolicy::FirstFail, type-parameter-0-0, type-parameter-0-1, type-parameter-0-2>', 0),
+    ('WhenAllTuple_Consume', None, ['yaclib/async/when_all.hpp'], 'yaclib::when::AllTuple', 'when/all_tuple.hpp', 'Consume', 'template'),
+    ('WhenAllTuple_dtor_None', None, ['yaclib/async/when_all.hpp'], 'yaclib::when::AllTuple', 'when/all_tuple.hpp', '~AllTuple<yaclib::FailPolicy::None, type-parameter-0-0, type-parameter-0-1, type-parameter-0-2>', 0),
+    ('WhenAllTuple_dtor_FirstFail', None, ['yaclib/async/when_all.hpp'], 'yaclib::when::AllTuple', 'when/all_tuple.hpp', '~AllTuple<yaclib::FailPolicy::FirstFail, type-parameter-0-0, type-parameter-0-1, type-parameter-0-2>', 0),
+    ('WhenJoin_Consume', None, ['yaclib/async/when_all.hpp'], 'yaclib::when::Join', 'when/join.hpp', 'Consume', 'template'),
+    ('WhenJoin_dtor_None', None, ['yaclib/async/when_all.hpp'], 'yaclib::when::Join', 'when/join.hpp', '~Join<yaclib::FailPolicy::None, void, type-parameter-0-0, type-parameter-0-1>', 0),
+    ('WhenJoin_dtor_FirstFail', None, ['yaclib/async/when_all.hpp'], 'yaclib::when::Join', 'when/join.hpp', '~Join<yaclib::FailPolicy::FirstFail, void, type-parameter-0-0, type-parameter-0-1>', 0),
+    ('WhenAny_Consume', None, ['yaclib/async/when_any.hpp'], 'yaclib::when::Any', 'when/any.hpp', 'Consume', 'template'),
+    ('WhenAny_dtor_FirstFail', None, ['yaclib/async/when_any.hpp'], 'yaclib::when::Any', 'when/any.hpp', '~Any<yaclib::FailPolicy::FirstFail, type-parameter-0-0, type-parameter-0-1, type-parameter-0-2>', 0),
+    ('WhenAny_DoneImpl', None, ['yaclib/async/when_any.hpp'], 'yaclib::when::Any', 'when/any.hpp', 'DoneImpl', 0),
+    ('WhenAll_front', None, ['yaclib/async/when_all.hpp'], 'yaclib::WhenAll', 'async/when_all.hpp', 'WhenAll', 'template'),
+    ('WhenAny_front', None, ['yaclib/async/when_any.hpp'], 'yaclib::WhenAny', 'async/when_any.hpp', 'WhenAny', 'template'),
+    ('Join_front', None, ['yaclib/async/join.hpp'], 'yaclib::Join', 'async/join.hpp', 'Join', 'template'),
 ]
 
 
@@ -233,6 +394,31 @@ def generate(repo, cfg_include, workdir, kernels=KERNELS):
     cache = {}
     defs = []
     problems = []
+    # one clang run per distinct (TU, filter): do them in parallel; a failing run is retried (and reported) below
+    from concurrent.futures import ThreadPoolExecutor
+
+    def _prefetch(key):
+        tu, includes, flt = key
+        try:
+            if tu is None:
+                path = os.path.join(workdir, 'tu_%s.cpp' % abs(hash(key)))
+                with open(path, 'w') as f:
+                    for inc in includes:
+                        f.write('#include <%s>\n' % inc)
+            else:
+                path = os.path.join(repo, tu)
+            return key, A.dump(path, flt, cfg_include, repo=repo)
+        except Exception:
+            return key, None
+    keys = []
+    for (kid, tu, includes, flt, suffix, name, sel) in kernels:
+        key = (tu, tuple(includes or ()), flt)
+        if key not in keys:
+            keys.append(key)
+    with ThreadPoolExecutor(max_workers=min(16, os.cpu_count() or 4)) as ex:
+        for key, docs in ex.map(_prefetch, keys):
+            if docs is not None:
+                cache[key] = docs
     for (kid, tu, includes, flt, suffix, name, sel) in kernels:
         key = (tu, tuple(includes or ()), flt)
         try:
